@@ -139,8 +139,11 @@ func TestDrive(t *testing.T) {
 	case "authz":
 		e.Exec = pureExec
 		AuthzCases(e, r, tier)
+	case "jwtat":
+		e.Exec = pureExec
+		JWTATCases(e, r, tier)
 	case "hist":
-		nh := envInt("FZ_HISTORIES", 40)
+		nh := envInt("FZ_HISTORIES", 100)
 		if tier == "thorough" {
 			nh = envInt("FZ_HISTORIES", 600)
 		}
@@ -178,6 +181,8 @@ func execPure(f []string) string {
 		return execIDToken(f)
 	case "authz":
 		return execAuthz(f)
+	case "jwtat":
+		return execJWTAT(f)
 	}
 	return "bad-op"
 }
